@@ -1,6 +1,7 @@
 import Memterm.Props.C16
 import Memterm.Props.C15
 import Memterm.Props.C04
+import Memterm.Spec.C17
 
 /-
   C17 — The dirty set covers every row whose appearance changed.
@@ -9,18 +10,6 @@ namespace Memterm
 namespace C17
 
 open Gen
-
-/-- every row of the current screen is marked -/
-def AllDirty (s : Screen) : Prop := ∀ y, y < s.lines → s.dirty y = true
-
-/-- rows whose cells differ are marked, marks are only added, the height is the same -/
-structure Good (s s' : Screen) : Prop where
-  covers : ∀ y x, y < s'.lines → s'.cell y x ≠ s.cell y x → s'.dirty y = true
-  mono : ∀ d, s.dirty d = true → s'.dirty d = true
-  lines : s'.lines = s.lines
-
-/-- one step: either `Good`, or every row of the new screen is marked -/
-def Step (s s' : Screen) : Prop := Good s s' ∨ AllDirty s'
 
 theorem Good.refl (s : Screen) : Good s s := ⟨fun _ _ _ h => absurd rfl h, fun _ h => h, rfl⟩
 
@@ -203,14 +192,6 @@ theorem alldirty_resize (s : Screen) (h : Inv s) (l c : Option Nat)
 
 /-! #### draw -/
 
-/-- the loop invariant of `draw`: every changed row is marked, except possibly the row the cursor is on -/
-structure GoodExcept (s s' : Screen) : Prop where
-  covers : ∀ y x, y < s'.lines → s'.cell y x ≠ s.cell y x → s'.dirty y = true ∨ y = s'.cursor.y
-  mono : ∀ d, s.dirty d = true → s'.dirty d = true
-  lines : s'.lines = s.lines
-
-def StepExcept (s s' : Screen) : Prop := GoodExcept s s' ∨ AllDirty s'
-
 theorem GoodExcept.refl (s : Screen) : GoodExcept s s := ⟨fun _ _ _ h => absurd rfl h, fun _ h => h, rfl⟩
 
 /-- an intermediate state extended by an operation that only rewrites the cursor row (and may
@@ -360,7 +341,7 @@ theorem good_cursorPosition (s : Screen) (h : Inv s) (l c : Option Nat) : Good s
   exact good_of_ocm (C05.position_and_frame ⟨fun _ => 1, fun _ => false, id⟩ s (.cursorPosition l c) x y h e).2.2
 
 theorem good_sgr (s : Screen) (a : List Nat) : Good s (selectGraphicRendition s a) := by
-  rw [C08.sgr_eq_spec]; exact good_of_same rfl rfl rfl
+  rw [sgr_frame]; exact good_of_same rfl rfl rfl
 
 theorem good_homeIf (s : Screen) (h : Inv s) (b : Bool) : Good s (homeIf b s) := by
   unfold homeIf; split
@@ -375,7 +356,7 @@ theorem step_applySet (s : Screen) (ml : List Nat) : Step s (applySetModes s ml)
   split
   · right
     intro y hy
-    rw [C08.sgr_eq_spec]
+    rw [sgr_frame]
     have hy' : y < s.lines := hy
     simp [setAllReverse, addModes, markAllDirty, markDirtyRange, hy']
   · left; exact good_of_same rfl rfl rfl
@@ -385,7 +366,7 @@ theorem step_applyReset (s : Screen) (ml : List Nat) : Step s (applyResetModes s
   split
   · right
     intro y hy
-    rw [C08.sgr_eq_spec]
+    rw [sgr_frame]
     have hy' : y < s.lines := hy
     simp [setAllReverse, removeModes, markAllDirty, markDirtyRange, hy']
   · left; exact good_of_same rfl rfl rfl
@@ -487,18 +468,6 @@ theorem step_all (env : Env) (s : Screen) (h : Inv s) (c : Call) (ha : c.argOk =
         | (simp only [step]; unfold tab; split <;> exact good_of_same rfl rfl rfl)
         | (simp only [step]; unfold defineCharset; split <;> (try split) <;> (try split) <;> exact good_of_same rfl rfl rfl))
 
-/-- a screen-wide change marks every row -/
-def screenWide (s : Screen) : Call → Prop
-  | .reset => True
-  | .alignmentDisplay => True
-  | .resize l c => ¬ (l.getD s.lines = s.lines ∧ c.getD s.columns = s.columns)
-  | .setMode ms p => (shiftModes ms p).contains DECSCNM = true ∨ (shiftModes ms p).contains DECCOLM = true
-  | .resetMode ms p => (shiftModes ms p).contains DECSCNM = true ∨ (shiftModes ms p).contains DECCOLM = true
-  | .index => s.cursor.y = bottomMargin s
-  | .linefeed => s.cursor.y = bottomMargin s
-  | .reverseIndex => s.cursor.y = topMargin s
-  | _ => False
-
 theorem screen_wide_all_dirty (env : Env) (s : Screen) (h : Inv s) (c : Call) (hw : screenWide s c) :
     AllDirty (step env s c) := by
   cases c <;> simp only [screenWide] at hw
@@ -539,7 +508,7 @@ theorem screen_wide_all_dirty (env : Env) (s : Screen) (h : Inv s) (c : Call) (h
         intro y hy
         unfold applySetModes at hy ⊢
         simp only [hscnm, if_true] at hy ⊢
-        rw [C08.sgr_eq_spec] at hy ⊢
+        rw [sgr_frame] at hy ⊢
         have hy' : y < s.lines := hy
         simp [setAllReverse, addModes, markAllDirty, markDirtyRange, hy']
       exact (a1.good (good_homeIf _ h1 _)).good (good_hiddenIf _ _ _)
@@ -559,7 +528,7 @@ theorem screen_wide_all_dirty (env : Env) (s : Screen) (h : Inv s) (c : Call) (h
         intro y hy
         unfold applyResetModes at hy ⊢
         simp only [hscnm, if_true] at hy ⊢
-        rw [C08.sgr_eq_spec] at hy ⊢
+        rw [sgr_frame] at hy ⊢
         have hy' : y < s.lines := hy
         simp [setAllReverse, removeModes, markAllDirty, markDirtyRange, hy']
       exact (a1.good (good_homeIf _ h1 _)).good (good_hiddenIf _ _ _)
@@ -589,31 +558,6 @@ theorem between_clears (env : Env) (s0 : Screen) (h0 : Inv s0) (hist : List Call
   exact ⟨a, b.dirty⟩
 
 /-! #### executable predicate -/
-
-def screenWideB (s : Screen) : Call → Bool
-  | .reset => true
-  | .alignmentDisplay => true
-  | .resize l c => !(l.getD s.lines == s.lines && c.getD s.columns == s.columns)
-  | .setMode ms p => (shiftModes ms p).contains DECSCNM || (shiftModes ms p).contains DECCOLM
-  | .resetMode ms p => (shiftModes ms p).contains DECSCNM || (shiftModes ms p).contains DECCOLM
-  | .index => s.cursor.y == bottomMargin s
-  | .linefeed => s.cursor.y == bottomMargin s
-  | .reverseIndex => s.cursor.y == topMargin s
-  | _ => false
-
-def allDirtyB (s : Screen) : Bool := (List.range s.lines).all (fun y => s.dirty y)
-
-def goodB (pre post : Screen) : Bool :=
-  allCellsB post.lines (max pre.columns post.columns) (fun y x => decide (post.cell y x = pre.cell y x) || post.dirty y) &&
-  (List.range (pre.lines + 3)).all (fun d => !pre.dirty d || post.dirty d) &&
-  post.lines == pre.lines
-
-def propC17 (pre : Screen) (c : Call) (post : Screen) : Bool :=
-  match c with
-  | .clearDirty => (List.range (pre.lines + 3)).all (fun d => !post.dirty d) && sameCellsB pre post
-  | _ =>
-    (goodB pre post || allDirtyB post) && (!screenWideB pre c || allDirtyB post) &&
-    (List.range (post.lines + 8)).all (fun d => !post.dirty d || decide (d < post.lines))
 
 theorem goodB_of (s s' : Screen) (h : Good s s') : goodB s s' = true := by
   simp only [goodB, Bool.and_eq_true, allCellsB_iff, Bool.or_eq_true, decide_eq_true_eq, List.all_eq_true,
@@ -673,3 +617,4 @@ theorem C17_holds (env : Env) (s : Screen) (c : Call) (h : Inv s) (ha : c.argOk 
 
 end C17
 end Memterm
+
